@@ -381,6 +381,12 @@ class C16(CheckBase):
         if caller and ch.coin(0.25):
             # the documented switch: load: then walks the search path only
             extra["prepend_relative"] = False
+        sp_ = ch.weighted([(7, None), (2, "rel"), (1, "home")], "spell")
+        if sp_:
+            # the object's path as a user spells it - relative to the
+            # directory the process is in when it makes the object (it is
+            # elsewhere by the time it first uses it), or under ~
+            extra["spell"] = sp_
         return {**extra, "dirs": dirs, "search_path": search, "pkg_path": pkg_path,
                 "default_extension": default_ext, "auto_reload": auto,
                 "files": files, "objects": objects, "ops": ops,
@@ -434,9 +440,15 @@ class C16(CheckBase):
         world = World(log, plan={}, tag="c16")
         world.read_events = True
         world.activate()
+        cwd, home = os.getcwd(), os.environ.get("HOME")
         try:
             return self._run(case, world, log)
         finally:
+            os.chdir(cwd)
+            if home is None:
+                os.environ.pop("HOME", None)
+            else:
+                os.environ["HOME"] = home
             world.close()
 
     def _run(self, case: dict, world: World, log: EventLog) -> dict:
@@ -486,12 +498,19 @@ class C16(CheckBase):
         serial_of = self.serial_of
 
         objs: list[Obj] = []
+        spell = case.get("spell")
+        if spell == "rel":
+            os.chdir(root)
+        elif spell == "home":
+            os.environ["HOME"] = root
         with world.as_proc(server):
             for o in case["objects"]:
                 ob = Obj(o["path"], o["auto_reload"])
                 ob.prepend = case.get("prepend_relative", True)
                 ob.real = self.CountingFile(
-                    full(o["path"]), auto_reload=o["auto_reload"],
+                    {"rel": o["path"], "home": "~/" + o["path"]}.get(
+                        spell, full(o["path"])),
+                    auto_reload=o["auto_reload"],
                     search_path=[os.path.join(root, d)
                                  for d in case["search_path"]],
                     **({"prepend_relative_search_path": False}
@@ -509,6 +528,8 @@ class C16(CheckBase):
                 [os.path.join(root, d) for d in case["search_path"]],
                 default_extension=case["default_extension"],
                 auto_reload=case["auto_reload"])
+        if spell == "rel":
+            os.chdir(world.path("ref"))
         caller_path = next((p_ for p_, v_ in case["files"].items()
                             if v_.get("callee")), None)
         loaded: dict[str, Obj] = {}           # spec -> model object
